@@ -407,7 +407,7 @@ def replay(ctx, path):
 def run(ctx):
     import translate_grammar
     quick = ctx.tier == "quick"
-    n_problems = 140 if quick else 2500
+    n_problems = 140 if quick else 6000
     t0 = time.time()
     # ---- 1. regenerate Gen/ from the tree under test (fail closed)
     try:
